@@ -40,7 +40,7 @@ CHECKEMPTYENUM == TRUE   \* an enum without cases is an error (`repr(int)` needs
 CHECKIMPLS == TRUE
 (* named deviation (C13): FALSE = what the code does: a base function whose name is taken is exposed as <field>_<name> *)
 (* even when that name is taken as well (the derived type then defines it twice); TRUE = that is an error             *)
-CHECKRENAME == FALSE
+CHECKRENAME == TRUE
 
 ResNone == [k |-> "none"]
 NoVftRes == [has |-> FALSE, funcs |-> <<>>, baseField |-> "", ty |-> TNone]
